@@ -208,6 +208,19 @@ func countRevStats(sc *RevScenario, obs *RevObs, st *Stats) (fired int) {
 	if obs.Net == nil {
 		return 0
 	}
+	for _, w := range sc.Worlds {
+		if len(w.RepST) > 1 {
+			differ := false
+			for _, k := range w.RepST[1:] {
+				if k != w.RepST[0] {
+					differ = true
+				}
+			}
+			if differ {
+				st.Probes["overlapping_callers_differ_in_signing_time"]++
+			}
+		}
+	}
 	for _, x := range obs.Net.All() {
 		if !x.Rec.Begun {
 			continue
